@@ -23,6 +23,11 @@ CHECKS = {
    note="Design runs use --just-files (NUPACK / spuriousSSM absent); the finish input .mfe is built in-process. Sources read by a compile are an opaque parameter of the model (harness checks they are .sys/.comp/--fixed files only). File contents are opaque. Interference through anything other than the directory (e.g. machine load, environment) is out of scope. 30 / 300 schedules over 3+1 / 6+4 systems.",
    technique="Lean 4 theorems (string-append injectivity; frame lemma + interleaving invariant by induction on the schedule) + strace/snapshot footprint oracle + real concurrent vs sequential differential runs",
    design="5.20"),
+ "C19": dict(
+   text="Proof (PARTIAL): PepperProps/C19.lean proves over the executable model of spuriousSSM.c's constraint handling and search loop (PepperModel/Ssm.lean: constrain, constrain_single_fast, mutate, test_consistency, freeloc, default bmax, main loop; random draws and the score comparison are inputs) that for every triple satisfying the documented contract (contractB), every admissible start sequence, every stopping option, every stream of legal random choices and every sequence of comparison outcomes the program passes both of its self-checks and prints a sequence of the input length whose blanks are the template's, whose bases lie in the template sets and which obeys every eq and wc entry (constrain_good, mutate_preserves_good = DESIGN appendix C transported to the list model, loop_preserves_good, final_check_passes, program_output_good); that without bmax/imax the loop starts with bmax = bmult*nq+1 >= 1 (default_bmax_pos); that with imax=0, bmax>0 at most bmax*(k+1) iterations run, k the number of strict improvements (iteration_count); and, at full strength, that for ANY score function of the sequence into ANY strictly ordered set the loop exits after at most bmax*5^N iterations whatever random stream is supplied (terminates, loop_exits, terminates_default). PARTIAL because memory safety / undefined behaviour of the C text and the ~600 lines of floating-point scoring code are not statements about the model: they are covered by running the real binary built with -fsanitize=address,undefined (all thorough runs, a third of the quick runs) and by taking the score comparison as an input; tmax (wall clock) is not modelled.",
+   note="Tied to the code by the verification trace of the real binary (seeded RNG; per iteration the mutated index, new base, comparison result, sequence and bored): ssm-replay must reproduce the constrained start, every intermediate sequence, bored, the stopping step and the final line; ssm-params must agree on Nfree and bmax; ssm-check must accept every generated triple. Oracle on the real binary: exit 0, no ERROR, no sanitizer report, exactly one Good output line (independent IUPAC tables), exit within a wall-clock cap for runs without imax/tmax (a timeout is a violation C19:no-termination). WC/randbasec/degenerates/Python code sets come from the tables regenerated on every run (decide). Trusts: the hook in spuriousSSM.c prints what the program really did; the loader (load_input_files) is exercised but not modelled here (C05).",
+   technique="Lean 4 theorems (loop invariants for constrain and the search loop, case analysis on class / partner class / rest, counting + pigeonhole for termination) + trace-replay correspondence + sanitizer runs of the real binary",
+   design="5.19"),
 }
 
 NOT_YET = {}
